@@ -170,6 +170,56 @@ def config_schedule_worker(task: Tuple[str, List[Tuple[Any, ...]]]) -> Stats:
     return st
 
 
+def bundled_worker(task: Tuple[str, List[Tuple[str, str]]]) -> Stats:
+    """(module name, [(file, asset)]): the inputs bundled with RP2, per asset sheet, under the four methods, the 12 two-year schedules and the file's own
+    schedule, judged by the property module's judge() like any node of the tree."""
+    from importlib import import_module
+
+    from rp2verif import bundled
+    from rp2verif.seams import compute as C
+
+    modname, chunk = task
+    mod = import_module(modname)
+    st = Stats()
+    cfg = C.configuration("us", **getattr(mod, "CFG_KW", {"allow_negative_balances": True}))
+    data = bundled.load()
+    for fname, asset in chunk:
+        specs = data[fname][asset]
+        own = bundled.schedule_of(fname)
+        # year boundaries of the two-year schedules moved into the input's own time span
+        years = sorted({int(s["timestamp"][:4]) for s in specs})
+        mid = years[len(years) // 2]
+        schedules = single_schedules() + [((1970, a), (mid, b)) for a in METHODS for b in METHODS if a != b] + ([tuple((int(y), m) for y, m in own)] if own else [])
+        try:
+            input_data = C.build_input(cfg, specs)
+        except Exception as exc:  # pylint: disable=broad-except
+            for sch in schedules:
+                mod.judge(st, (), specs, sch, C.Outcome(None, exc, None), f"bundled input {fname}.ods, asset {asset}")
+            continue
+        for sch in schedules:
+            st.inc("bundled_runs")
+            try:
+                out = C.Outcome(C.compute_tax(cfg, C.engine(sch), input_data), None, input_data)
+            except Exception as exc:  # pylint: disable=broad-except
+                out = C.Outcome(None, exc, input_data)
+            mod.judge(st, (), specs, sch, out, f"bundled input {fname}.ods, asset {asset}")
+    return st
+
+
+def run_bundled(modname: str, total: Stats, info: List[Dict[str, Any]], deadline: float) -> bool:
+    from rp2verif import bundled
+
+    bt = bundled.sheets()
+    t0 = time.time()
+    res, done = common.pmap(bundled_worker, [(modname, [x]) for x in bt], deadline=max(deadline, time.time() + 60))
+    for r in res:
+        if r is not None:
+            total.merge(r)
+    info.append({"phase": "inputs bundled with RP2: every asset sheet of the 9 files x 4 methods x 12 two-year schedules (+ the file's own schedule)", "asset_sheets": len(bt),
+                 "executions": total.get("bundled_runs"), "wall_s": round(time.time() - t0, 1)})
+    return done == len(bt)
+
+
 def generic_worker(task: Tuple[Any, ...]) -> Stats:
     """task = (root, depth, schedules, steps, max_dev, row_order, module name). The property module provides FIRST,
     SYMBOLS, EXTRA (over-spent extra levels or None), judge(st, hist, specs, schedule, outcome, label) and optionally
